@@ -15,13 +15,13 @@ pub fn prop() -> Prop {
     Prop {
         id: "C09",
         level: "fault_enumeration",
-        rule: "fault cases over the C08 parameter space: (a) evaluations of a polynomial of degree in (bound, N) with non-zero leading coefficient, or of a random function, proved honestly under the unchanged declared bound (this is also the 'declared bound below the true degree' case); (b) one revealed layer value replaced by another field element; (c) one remainder coefficient replaced; (d) adaptive remainder substitution R' = R + c*prod(x - x_i) over the distinct final-layer query points; (e) adaptive coset substitution adding c*(x - alpha)*prod(x - x_q) to one queried coset (keeps the queried entries and the folded value); (f) one layer commitment replaced; (g) sub-check understated_bounds: an honest proof for a polynomial of true degree D <= 2^k - 1 verified under every kind of declared bound d < D with the same domain (2^(k-1) < d, d + 1 not a power of two, half of them with d + 1 divisible by folding^layers so that no DegreeTruncation rejection hides the remainder-degree check), including D = d + 1. Oracle: FriVerifier::new(..).and_then(verify) is Err through DefaultVerifierChannel AND through a channel implementing only the required methods of the public VerifierChannel trait (what a downstream verifier's channel looks like); the unmodified proof must verify first. Non-trivial = the honest counterpart verifies (faults b-f) and the adaptive invariants were checked by the harness; distinct = hash of (instance, parameters, fault, positions).",
+        rule: "fault cases over the C08 parameter space: (a) evaluations of a polynomial of degree in (bound, N) with non-zero leading coefficient, or of a random function, proved honestly under the unchanged declared bound (this is also the 'declared bound below the true degree' case); (b) one revealed layer value replaced by another field element; (c) one remainder coefficient replaced; (d) adaptive remainder substitution R' = R + c*prod(x - x_i) over the distinct final-layer query points; (e) adaptive coset substitution adding c*(x - alpha)*prod(x - x_q) to one queried coset (keeps the queried entries and the folded value); (f) one layer commitment replaced; (h) one evaluation claimed by the caller at a queried position replaced (first or later member of its coset in the position list); (g) sub-check understated_bounds: an honest proof for a polynomial of true degree D <= 2^k - 1 verified under every kind of declared bound d < D with the same domain (2^(k-1) < d, d + 1 not a power of two, half of them with d + 1 divisible by folding^layers so that no DegreeTruncation rejection hides the remainder-degree check), including D = d + 1. Oracle: FriVerifier::new(..).and_then(verify) is Err through DefaultVerifierChannel AND through a channel implementing only the required methods of the public VerifierChannel trait (what a downstream verifier's channel looks like); the unmodified proof must verify first. Non-trivial = the honest counterpart verifies (faults b-f) and the adaptive invariants were checked by the harness; distinct = hash of (instance, parameters, fault, positions).",
         assumptions: vec![
             "(a) is probabilistic: the honest prover truncates the over-degree remainder, a false accept needs the truncated part to vanish at a queried point, probability <= N/|E| <= 2^-42 per case",
             "adaptive substitutions are computed from the replayed public coin (same reseed/draw schedule as FriVerifier::new) and are only mounted when feasible (enough remainder coefficients / enough unqueried entries in a coset); feasibility is counted",
         ],
         subs: vec![Sub::gen("faults", faults, 240, 60_000, 1_500_000), Sub::gen("understated_bounds", understated, 120, 20_000, 500_000)],
-        required: vec!["fault:over_degree", "fault:random_function", "fault:layer_value", "fault:remainder_coefficient", "fault:adaptive_remainder", "fault:adaptive_coset", "fault:commitment", "slightly_over_bound", "understated:divisible_by_folding_power", "understated:bound_plus_one_not_power_of_two", "understated:true_degree_just_above", "ext_2", "ext_3", "folding_4", "folding_16"],
+        required: vec!["fault:over_degree", "fault:random_function", "fault:layer_value", "fault:remainder_coefficient", "fault:adaptive_remainder", "fault:adaptive_coset", "fault:commitment", "fault:claimed_evaluation", "claimed_evaluation_later_in_its_coset", "slightly_over_bound", "understated:divisible_by_folding_power", "understated:bound_plus_one_not_power_of_two", "understated:true_degree_just_above", "ext_2", "ext_3", "folding_4", "folding_16"],
         required_thorough: vec![],
     }
 }
@@ -73,7 +73,7 @@ fn run<X: HS, E: FieldElement<BaseField = <X::S as Spec>::B>>(s: &mut Src, rec: 
     let max_log = if X::is_rescue() { 10 } else { 12 }; // < 13: the huge-remainder family (C08 known finding) is not generated here
     // adaptive attacks need few queries, many remainder coefficients, wide cosets: bias towards them
     let mut p = gen_params(s, max_log, rec);
-    let kind = s.below(7);
+    let kind = s.below(8);
     if kind >= 3 && p.rem_max_degree > 255 {
         p = Params { log_bound: 6, blowup: 4, folding: 4, rem_max_degree: 7 };
     }
@@ -83,12 +83,12 @@ fn run<X: HS, E: FieldElement<BaseField = <X::S as Spec>::B>>(s: &mut Src, rec: 
         return Ok(());
     }
     rec.class(&format!("folding_{}", p.folding));
-    let kname = ["over_degree", "random_function", "layer_value", "remainder_coefficient", "adaptive_remainder", "adaptive_coset", "commitment"][kind as usize];
+    let kname = ["over_degree", "random_function", "layer_value", "remainder_coefficient", "adaptive_remainder", "adaptive_coset", "commitment", "claimed_evaluation"][kind as usize];
     let n = p.domain();
     let layers = p.num_layers();
     let positions = {
         let mut v = gen_positions(s, n, rec);
-        if kind >= 4 {
+        if (4..=6).contains(&kind) {
             v.truncate(s.range(1, 4) as usize);
         }
         v
@@ -163,6 +163,25 @@ fn run<X: HS, E: FieldElement<BaseField = <X::S as Spec>::B>>(s: &mut Src, rec: 
             let _ = other;
             return Ok(());
         },
+    }
+    if kind == 7 {
+        // (h) one evaluation CLAIMED by the caller at a queried position differs from the committed
+        // function (the proof itself is untouched); any member of a coset, first or later in the list
+        let k = s.below(q.len() as u64) as usize;
+        let mut q2 = q.clone();
+        q2[k] += nonzero::<X::S, E>(s);
+        // the same position may occur twice in the list: then both claims must be changed consistently
+        for (m, pos) in positions.iter().enumerate() {
+            if *pos == positions[k] {
+                q2[m] = q2[k];
+            }
+        }
+        let coset = n / p.folding;
+        let shares_coset_with_earlier = positions[..k].iter().any(|x| x % coset == positions[k] % coset && *x != positions[k]);
+        rec.class_if(shares_coset_with_earlier, "claimed_evaluation_later_in_its_coset");
+        rec.class(&format!("fault:{kname}"));
+        rec.nontrivial();
+        return reject(verify_all::<X, E>(&p, p.bound(), h.proof, &h.commitments, &q2, &positions, false), &format!("the evaluation claimed at position {} (#{k} of the list) replaced by another value", positions[k]), rec);
     }
     let bytes = h.proof.to_bytes();
     let Some(lay) = layout(&bytes) else {
